@@ -2,6 +2,7 @@ package lint
 
 import (
 	"fmt"
+	"go/constant"
 	"go/token"
 	"go/types"
 	"strconv"
@@ -1027,6 +1028,9 @@ func (m *Model) ruleBACKFILLCOND(r *Results) {
 			key := fmt.Sprintf("%s / call of %s", m.declName(F), m.declName(target))
 			var problems []string
 			for _, ct := range controllingConds(F, c.Block()) {
+				if cm := ct.If.Block().Comment; cm == "rangeindex.loop" || cm == "rangeiter.loop" {
+					continue // iterating over the collections to start: not a decision about one snapshot
+				}
 				cd := condOf(ct.If)
 				ops := []ssa.Value{cd.X}
 				if cd.Y != nil {
@@ -1180,6 +1184,7 @@ func (m *Model) ruleOPENERR(r *Results) {
 			}
 		})
 	}
+	m.openCleanupOnlyNew(r, rule, fn)
 	if len(regs) == 0 {
 		r.undecided(rule, m.declName(fn)+" / registration", m.pos(fn.Pos()), "the open function does not register the bucket")
 		return
@@ -1258,5 +1263,154 @@ func (m *Model) ruleOPENERR(r *Results) {
 		r.ok(rule, key, m.instrPos(regs[0]), "every return that follows the registration returns a nil error")
 	} else {
 		r.bad(rule, key, m.instrPos(regs[0]), "%s: the cleanup-on-error then shuts down and deletes a store that another handle may already be using", strings.Join(uniq(problems), "; "))
+	}
+}
+
+// deletesFiles: f (transitively, package-local) removes files.
+func (m *Model) deletesFiles(f *ssa.Function) bool {
+	for g := range m.reachableLocal(f) {
+		found := false
+		m.eachCall(g, func(c ssa.CallInstruction) {
+			if t := c.Common().StaticCallee(); t != nil && t.Pkg != nil && t.Pkg.Pkg.Path() == "os" && (t.Name() == "RemoveAll" || t.Name() == "Remove") {
+				found = true
+			}
+		})
+		if found {
+			return true
+		}
+	}
+	return false
+}
+
+// openCleanupOnlyNew: a cleanup of the open function that deletes the bucket's files runs only
+// when the database was created by this very call (schema version 0), never for a bucket that
+// existed before and merely failed to open.
+func (m *Model) openCleanupOnlyNew(r *Results, rule string, fn *ssa.Function) {
+	// cells filled from PRAGMA user_version in the open function
+	versCells := map[ssa.Value]bool{}
+	for _, sc := range m.scanCalls() {
+		if sc.Fn != fn || sc.Site == nil {
+			continue
+		}
+		for _, v := range sc.Site.Variants {
+			if st := v.Stmt(); st != nil && st.Kind == sqlp.SPragma && strings.EqualFold(st.PragmaName, "user_version") {
+				for _, d := range sc.Dests {
+					versCells[d] = true
+				}
+			}
+		}
+	}
+	cellOf := func(v ssa.Value, in *ssa.Function) ssa.Value {
+		ld, ok := stripConv(v).(*ssa.UnOp)
+		if !ok || ld.Op != token.MUL {
+			return nil
+		}
+		switch c := ld.X.(type) {
+		case *ssa.Alloc:
+			return c
+		case *ssa.FreeVar:
+			b, _ := m.freeVarBinding(c, nil)
+			return b
+		}
+		return nil
+	}
+	// isVersZero: the branch is taken exactly when the scanned schema version is 0
+	versZeroTaken := func(ct ctrl, in *ssa.Function) bool {
+		cd := condOf(ct.If)
+		eq, ok := cd.equalEdge()
+		if !ok {
+			return false
+		}
+		var other ssa.Value
+		switch {
+		case isZeroConst(cd.Y):
+			other = cd.X
+		case isZeroConst(cd.X):
+			other = cd.Y
+		default:
+			return false
+		}
+		if c := cellOf(other, in); c == nil || !versCells[c] {
+			// not the scanned cell itself: accept a value whose term is the schema version read through
+			// a helper (PRAGMA user_version), as the term engine sees it
+			te := m.newTermEval()
+			t := te.term(other, ct.If, m.closureFrame(in))
+			isVers := false
+			for _, alt := range t.alts() {
+				switch {
+				case alt.Kind == "scan" && strings.Contains(alt.Col, "pragma:user_version"):
+					isVers = true
+				case isZeroTerm(alt):
+				default:
+					return false
+				}
+			}
+			if !isVers {
+				return false
+			}
+		}
+		taken := ct.If.Block().Succs[1]
+		if ct.Branch {
+			taken = ct.If.Block().Succs[0]
+		}
+		return taken == eq
+	}
+	n := 0
+	for _, an := range fn.AnonFuncs {
+		m.eachCall(an, func(c ssa.CallInstruction) {
+			callee := c.Common().StaticCallee()
+			if callee == nil || !m.inPkg(callee) || !m.deletesFiles(callee) {
+				return
+			}
+			n++
+			key := m.declName(fn) + " / cleanup deletes only a bucket created by this call"
+			good := false
+			for _, ct := range controllingConds(an, c.Block()) {
+				if versZeroTaken(ct, an) {
+					good = true
+					continue
+				}
+				// a flag that is set only where the schema version was found to be 0
+				cd := condOf(ct.If)
+				if cd.Op != token.ILLEGAL || cd.X == nil {
+					continue
+				}
+				if ct.Branch == cd.Neg {
+					continue // taken when the flag is false
+				}
+				flag := cellOf(cd.X, an)
+				al, ok := flag.(*ssa.Alloc)
+				if !ok {
+					continue
+				}
+				onlyUnderZero, anyTrue := true, false
+				for _, ref := range *al.Referrers() {
+					st, ok := ref.(*ssa.Store)
+					if !ok || st.Addr != ssa.Value(al) {
+						continue
+					}
+					if cst, ok := st.Val.(*ssa.Const); ok && cst.Value != nil && !constant.BoolVal(cst.Value) {
+						continue
+					}
+					anyTrue = true
+					under := false
+					for _, ct2 := range controllingConds(fn, st.Block()) {
+						if versZeroTaken(ct2, fn) {
+							under = true
+						}
+					}
+					if !under {
+						onlyUnderZero = false
+					}
+				}
+				if anyTrue && onlyUnderZero {
+					good = true
+				}
+			}
+			r.check(good, rule, key, m.instrPos(c), "the deleting cleanup runs only when the schema version read by this call was 0 (the database did not exist before)", "the open function's cleanup-on-error deletes the bucket's files whether or not the bucket existed before this call: a failed open of an existing bucket (e.g. database locked by another process) destroys its data")
+		})
+	}
+	if n == 0 {
+		r.ok(rule, m.declName(fn)+" / cleanup deletes only a bucket created by this call", m.pos(fn.Pos()), "the open function has no deferred cleanup that deletes files")
 	}
 }
